@@ -50,3 +50,12 @@ type MapperStruct struct {
 	Host string `yaml:"host-y" json:"host-j"`
 	Port int    `yaml:"port-y" json:"port-j"`
 }
+
+// PrefixedDB implements ConfigurationProperties: an untagged field of this type is bound from "db". A
+// field that carries an explicit prefix tag is bound from the tag's path - the tag wins.
+type PrefixedDB struct {
+	Host string `yaml:"host"`
+	Port int    `yaml:"port"`
+}
+
+func (PrefixedDB) Prefix() string { return "db" }
